@@ -301,6 +301,37 @@ func reqMaskMsg(v int64) string {
 
 // entryCarriesHandler: v is a handler-map entry whose Handler-typed field holds the parameter hp — a struct
 // literal built in place, or the result of a package-local constructor that receives hp.
+// peelIdentity peels conversions and calls of checking helpers that hand one of their arguments back unchanged
+// on every return (and panic otherwise).
+func peelIdentity(v ssa.Value) ssa.Value {
+	for d := 0; d < 3; d++ {
+		v = flow.Peel(v)
+		call, ok := v.(*ssa.Call)
+		if !ok {
+			break
+		}
+		g := flow.StaticCallee(call)
+		if g == nil || g.Blocks == nil || g.Signature.Results().Len() != 1 {
+			break
+		}
+		rvs := flow.ReturnValues(g, 0)
+		idx := -1
+		for _, rv := range rvs {
+			p, isP := flow.Peel(rv).(*ssa.Parameter)
+			if !isP || p.Parent() != g || (idx >= 0 && paramIndex(g, p) != idx) {
+				idx = -2
+				break
+			}
+			idx = paramIndex(g, p)
+		}
+		if idx < 0 || idx >= len(call.Call.Args) {
+			break
+		}
+		v = call.Call.Args[idx]
+	}
+	return v
+}
+
 func entryCarriesHandler(v ssa.Value, hp *ssa.Parameter, depth int) bool {
 	// a local entry: initialised as a whole (constructor result) and/or field by field
 	if u, ok := v.(*ssa.UnOp); ok && u.Op == token.MUL {
@@ -318,7 +349,7 @@ func entryCarriesHandler(v ssa.Value, hp *ssa.Parameter, depth int) bool {
 				case *ssa.FieldAddr:
 					for _, r2 := range flow.Referrers(x) {
 						if st, isSt := r2.(*ssa.Store); isSt && st.Addr == ssa.Value(x) && isHandlerIface(st.Val.Type()) {
-							if p, isP := flow.Peel(st.Val).(*ssa.Parameter); isP && p == hp {
+							if p, isP := peelIdentity(st.Val).(*ssa.Parameter); isP && p == hp {
 								fieldOK = true
 							} else {
 								fieldBad = true
@@ -336,7 +367,7 @@ func entryCarriesHandler(v ssa.Value, hp *ssa.Parameter, depth int) bool {
 	if fs := structLitFields(v); fs != nil {
 		for _, fv := range fs {
 			if isHandlerIface(fv.Type()) {
-				if p, ok := flow.Peel(fv).(*ssa.Parameter); ok && p == hp {
+				if p, ok := peelIdentity(fv).(*ssa.Parameter); ok && p == hp {
 					return true
 				}
 			}
